@@ -85,3 +85,36 @@ def writeSetV2PagedC (P : Nat) (crc : Bytes → Nat) (chunks : List Bytes) (attr
 def pagesOf (P : Nat) (bs : Bytes) : PB := write P ⟨0, []⟩ bs
 
 end KV.Model.RecordWriter
+
+namespace KV.Model.RecordWriter
+open KV KV.RW KV.Model.PageBuffer
+
+/-! ### protocol/record_v1.go writeToVersion1 on the page buffer -/
+
+/-- one iteration of the `forEachRecord` callback: offset, two placeholders, magic, attributes, timestamp, key, value
+(`writeNullBytesFrom` copies the bytes in), then size and CRC (the encoder's running CRC-32 over magic..value) are
+back-patched at `messageOffset+8` / `+12` -/
+def messageV1Paged (P : Nat) (crc : Bytes → Nat) (attributes now : Int) (i : Nat) (r : PRec) (pb : PB) : PB :=
+  let messageOffset := pb.base + (flat pb).length
+  let t := effTime now r
+  let pb := writeAll P pb [i64 (i : Int), i32 0, i32 0, i8 1, i8 attributes, i64 t, writeNullBytes r.key, writeNullBytes r.value]
+  let size := (pb.base + (flat pb).length) - (messageOffset + 12)
+  let checksum := crc (i8 1 ++ (i8 attributes ++ (i64 t ++ (writeNullBytes r.key ++ writeNullBytes r.value))))
+  let pb := writeAt P pb (i32 (size : Int)) (messageOffset + 8)
+  writeAt P pb (u32 checksum) (messageOffset + 12)
+
+def writeV1Paged (P : Nat) (crc : Bytes → Nat) (attributes now : Int) : Nat → List PRec → PB → PB
+  | _, [], pb => pb
+  | i, r :: rs, pb => writeV1Paged P crc attributes now (i + 1) rs (messageV1Paged P crc attributes now i r pb)
+
+/-- with a compressor: the uncompressed set is rendered INTO THE SAME BUFFER (codec bits erased), read back with
+`pages.scan(bufferOffset, Size())` into the compressor, the buffer is truncated to `bufferOffset`, and the wrapper
+message (offset 0, original attributes, time zero → now, nil key, value = compressed bytes) is written in its place -/
+def writeV1PagedC (P : Nat) (crc : Bytes → Nat) (comp : Bytes → Bytes) (attributes now : Int) (recs : List PRec) (pb : PB) : PB :=
+  let bufferOffset := pb.base + (flat pb).length
+  let pb1 := writeV1Paged P crc (attributes - attributes % 8) now 0 recs pb
+  let plain := scan P pb1 bufferOffset (pb1.base + (flat pb1).length)
+  let pb2 := truncate pb1 bufferOffset
+  messageV1Paged P crc attributes now 0 ⟨0, none, some (comp plain), []⟩ pb2
+
+end KV.Model.RecordWriter
